@@ -1412,6 +1412,13 @@ impl PayloadEncode for ScmpMessageUnknown {
 
     #[inline]
     fn wire_valid(&self) -> Result<(), InvalidStructureError> {
+        // A known message type would be decoded as that message, not as `Unknown`.
+        if !matches!(
+            ScmpMessageType::from(self.message_type),
+            ScmpMessageType::Unknown(_)
+        ) {
+            return Err("unknown SCMP message must not carry a known message type".into());
+        }
         Ok(())
     }
 
